@@ -45,7 +45,12 @@ def Cases(tier):
                     'base_id': 'b%d' % i,
                     'qmap': [(q, m[q], False) for q in query],
                     'meta': {'features': feats + ['variant_' + kind],
-                             'source': 'random', 'sig': {'variant': kind}}})
+                             'source': 'random',
+                             'sig': {'variant': kind,
+                                     # a predicate was renamed to an SQL keyword
+                                     'kw': 'yes' if any(
+                                         x in meta.KEYWORD_PREDS
+                                         for x in m.values()) else 'no'}}})
   return cases + semrun.Reproducers(PROP)
 
 
